@@ -50,6 +50,7 @@ type c11Cfg struct {
 	Path    string // cookie path
 	Hosts   [][2]string // (login host, sign-out host)
 	Domains []string    // configured cookie domains
+	Rewritten [][2]string // (browser host, Host header seen by the proxy): front proxy that rewrites Host, no --reverse-proxy
 	Fronted bool
 	p       *vfProxy
 }
@@ -106,14 +107,19 @@ func c11Configs(run *vfRun, w *vfWorld) []*c11Cfg {
 					switch dom {
 					case "none":
 						c.Hosts = [][2]string{{"proxy.test", "proxy.test"}, {"proxy.test:8443", "proxy.test:8443"}}
+						c.Rewritten = [][2]string{{"proxy.test", "internal-svc:4180"}}
 					case "parent":
 						c.Flags = append(c.Flags, "--cookie-domain=example.test")
+						c.Domains = []string{"example.test"}
+						// the proxy sees a host that matches none of the configured domains (documented: the shortest domain is used)
+						c.Rewritten = [][2]string{{"app.example.test", "internal-svc:4180"}, {"app.example.test", "10.1.2.3:4180"}, {"example.test:8443", "localhost"}, {"a.b.example.test", "unrelated.invalid"}, {"app.example.test", "[::1]:4180"}}
 						c.Hosts = [][2]string{{"proxy.example.test", "proxy.example.test"}, {"example.test", "example.test"}, {"deep.proxy.example.test:8443", "deep.proxy.example.test:8443"},
 							{"a.example.test", "b.example.test"}, {"proxy.example.test", "deep.proxy.example.test"}}
 					case "two":
 						// several cookie domains: "the longest domain matching the request's host will be used"
 						c.Flags = append(c.Flags, "--cookie-domain=proxy.example.test", "--cookie-domain=example.test")
 						c.Domains = []string{"proxy.example.test", "example.test"}
+						c.Rewritten = [][2]string{{"app.example.test", "internal-svc:4180"}, {"other.example.test", "192.0.2.7"}, {"app.example.test:8443", "localhost:4180"}, {"example.test", "svc.cluster.local"}}
 						c.Hosts = [][2]string{{"other.example.test", "proxy.example.test"}, {"proxy.example.test", "proxy.example.test"}, {"other.example.test", "b.example.test"},
 							{"deep.proxy.example.test", "proxy.example.test:8443"}, {"example.test", "a.proxy.example.test"}, {"other.example.test:8443", "other.example.test:8443"}}
 					case "parent-dot":
@@ -187,6 +193,9 @@ type c11Hist struct {
 	Rd        string `json:"rd"`
 	HostLogin string `json:"host_login"`
 	HostOut   string `json:"host_sign_out"`
+	// ProxyHost: the Host header the PROXY sees when a front proxy rewrites it (the browser keeps addressing host_login /
+	// host_sign_out, which is what its cookie jar goes by). Empty = the proxy sees the browser's host.
+	ProxyHost string `json:"host_header_seen_by_proxy,omitempty"`
 	Fault     string `json:"redis_del_fault,omitempty"`
 }
 
@@ -228,6 +237,10 @@ func c11Histories(run *vfRun, cfg *c11Cfg, ci int) []c11Hist {
 		h.Rd = []string{"", "/after?x=1", "https://evil.example/", "/"}[(n/2)%4]
 		hp := cfg.Hosts[n%len(cfg.Hosts)]
 		h.HostLogin, h.HostOut = hp[0], hp[1]
+		if len(cfg.Rewritten) > 0 && n%4 == 3 {
+			rw := cfg.Rewritten[(n/4)%len(cfg.Rewritten)]
+			h.HostLogin, h.HostOut, h.ProxyHost = rw[0], rw[0], rw[1]
+		}
 		n++
 		out = append(out, h)
 	}
@@ -359,15 +372,41 @@ func (r *c11Runner) one(cfg *c11Cfg, h c11Hist) {
 	var gens [][]*vfCookie // session cookies stored by one response = one generation
 	detail := func(extra map[string]interface{}) map[string]interface{} {
 		d := map[string]interface{}{"config": cfg.Label, "flags": p.Flags, "cookie_name": cfg.Name, "history": h, "trace": trace, "subject": sub,
-			"how_to_replay": "login at host_login (ID token with a 'pad' claim of pads[0] random characters); before each request listed in refresh_before_request move the session's CreatedAt 10 minutes back (load + save through the store) so that the request refreshes (next pad); then <method> <prefix>/sign_out[?rd=] at host_sign_out; then replay the archived cookies"}
+			"how_to_replay": "(when host_header_seen_by_proxy is set: send every request with that Host header but keep the cookie jar keyed by host_login / host_sign_out) login at host_login (ID token with a 'pad' claim of pads[0] random characters); before each request listed in refresh_before_request move the session's CreatedAt 10 minutes back (load + save through the store) so that the request refreshes (next pad); then <method> <prefix>/sign_out[?rd=] at host_sign_out; then replay the archived cookies"}
 		for k, v := range extra {
 			d[k] = v
 		}
 		return d
 	}
+	// wire: the Host header the proxy sees for a request the browser addresses to host
+	wire := func(host string) string {
+		if h.ProxyHost != "" {
+			return h.ProxyHost
+		}
+		return host
+	}
+	// the browser: cookies by its own URL host (b.Host), Host header possibly rewritten on the way to the proxy
+	browserSend := func(req *vfReq) *vfResp {
+		rr := req.Clone()
+		rr.Host = wire(b.Host)
+		if cs := b.Jar.For(b.Host, rr.Target, false); len(cs) > 0 {
+			rr.Headers = append(rr.Headers, [2]string{"Cookie", vfCookieHeader(cs)})
+		}
+		resp := p.Do(rr)
+		path := rr.Target
+		if k := strings.IndexAny(path, "?#"); k >= 0 {
+			path = path[:k]
+		}
+		for _, res := range b.Jar.Apply(b.Host, path, resp.SetCookies()) {
+			if strings.HasPrefix(res, "ignored") {
+				run.Count("set_cookie_ignored_by_browser:"+res, 1)
+			}
+		}
+		return resp
+	}
 	send := func(req *vfReq) *vfResp {
 		n0 := len(b.Jar.Archive)
-		resp := b.Send(p, req)
+		resp := browserSend(req)
 		var g []*vfCookie
 		for _, c := range b.Jar.Archive[n0:] {
 			if c11IsSession(c) {
@@ -380,24 +419,33 @@ func (r *c11Runner) one(cfg *c11Cfg, h c11Hist) {
 		return resp
 	}
 	// --- login
-	l, err := b.StartLogin(p, vfIdentity{Sub: sub, Email: "x@example.com", Groups: []string{"g"}, PreferredUsername: "pu-" + sub}, cfg.Base)
+	st := send(vfGET(cfg.Prefix + "/start?rd=" + vfQueryEscape(cfg.Base)))
+	if st.Code != 302 {
+		run.Inconclusive(fmt.Sprintf("login start answered %d", st.Code))
+		return
+	}
+	code, ar, err := r.w.IdP.Authorize(st.Location(), vfIdentity{Sub: sub, Email: "x@example.com", Groups: []string{"g"}, PreferredUsername: "pu-" + sub})
 	if err != nil {
 		run.Inconclusive("login start failed: " + vfTrunc(err.Error(), 60))
 		return
 	}
-	cb := send(vfGET(l.CallbackTarget(p)))
+	cb := send(vfGET(cfg.Prefix + "/callback?code=" + vfQueryEscape(code) + "&state=" + vfQueryEscape(ar.Params.Get("state"))))
 	if cb.Code != 302 {
 		run.Inconclusive(fmt.Sprintf("login callback answered %d", cb.Code))
 		return
 	}
-	trace = append(trace, fmt.Sprintf("login at %s: %d session cookie(s)", h.HostLogin, len(gens[len(gens)-1])))
+	if len(gens) == 0 {
+		run.Inconclusive("login stored no session cookie in the browser")
+		return
+	}
+	trace = append(trace, fmt.Sprintf("login at %s (proxy sees Host %s): %d session cookie(s)", h.HostLogin, wire(h.HostLogin), len(gens[len(gens)-1])))
 	refreshAt := map[int]bool{}
 	for _, x := range h.RefreshAt {
 		refreshAt[x] = true
 	}
 	age := func(host string) bool {
 		req := httptest.NewRequest("GET", cfg.Prefix+"/userinfo", nil)
-		req.Host = host
+		req.Host = wire(host)
 		req.Header.Set("Cookie", vfCookieHeader(b.Jar.For(host, cfg.Prefix+"/userinfo", false)))
 		s, err := p.P.LoadCookiedSession(req)
 		if err != nil || s == nil {
@@ -496,7 +544,7 @@ func (r *c11Runner) one(cfg *c11Cfg, h c11Hist) {
 	so := send(req)
 	refreshedAtSignOut := r.tab.Issued(sub) > issuedBefore
 	setBySignOut := c11SessionIn(b.Jar.Archive[n0:])
-	trace = append(trace, fmt.Sprintf("%s %s at %s presenting %d session cookie(s) -> %d, %d Set-Cookie line(s), refreshed=%v", h.Method, target, h.HostOut, len(presented), so.Code, len(so.SetCookies()), refreshedAtSignOut))
+	trace = append(trace, fmt.Sprintf("%s %s at %s (proxy sees Host %s) presenting %d session cookie(s) -> %d, %d Set-Cookie line(s), refreshed=%v", h.Method, target, h.HostOut, wire(h.HostOut), len(presented), so.Code, len(so.SetCookies()), refreshedAtSignOut))
 	run.Count(fmt.Sprintf("sign_out_status_%d", so.Code), 1)
 	if so.Panic != "" {
 		run.Violation("c11:panic-in-sign-out", fmt.Sprintf("[%s] sign-out panicked: %s", cfg.Label, vfTrunc(so.Panic, 100)), detail(map[string]interface{}{"stack": so.Stack}))
@@ -506,8 +554,14 @@ func (r *c11Runner) one(cfg *c11Cfg, h c11Hist) {
 	dc := cfg.Domain + "," + cfg.Path
 	if h.HostLogin != h.HostOut {
 		dc += ",cross-host"
-		if len(cfg.Domains) >= 2 && c11RefDomain(cfg.Domains, h.HostLogin) != c11RefDomain(cfg.Domains, h.HostOut) {
+		if len(cfg.Domains) >= 2 && c11RefDomain(cfg.Domains, wire(h.HostLogin)) != c11RefDomain(cfg.Domains, wire(h.HostOut)) {
 			dc += ",other-domain-selected"
+		}
+	}
+	if h.ProxyHost != "" {
+		dc += ",host-rewritten"
+		if len(cfg.Domains) > 0 {
+			dc += "-matching-no-domain"
 		}
 	}
 	cell := fmt.Sprintf("%s|parts=%d|refresh=%s|%s|%s|name=%s", cfg.Store, len(presented), h.refreshClass(), dc, h.Method, c11NameClass(cfg.Name))
@@ -516,6 +570,9 @@ func (r *c11Runner) one(cfg *c11Cfg, h c11Hist) {
 	}
 	run.Eval(cell)
 	run.Count("histories", 1)
+	if h.ProxyHost != "" {
+		run.Count("histories_host_rewritten", 1)
+	}
 	if no%400 == 0 {
 		r.w.Up.Reset() // the upstream keeps every request (with its multi-kB Cookie header); replays also judge by status, so a lost record cannot hide anything
 	}
@@ -557,7 +614,7 @@ func (r *c11Runner) one(cfg *c11Cfg, h c11Hist) {
 			return false, ""
 		}
 		hdr := vfCookieHeader(cs)
-		ui := p.Do(vfGET(cfg.Prefix+"/userinfo", "Cookie", hdr).WithHost(h.HostOut))
+		ui := p.Do(vfGET(cfg.Prefix+"/userinfo", "Cookie", hdr).WithHost(wire(h.HostOut)))
 		run.Count("replay_requests", 1)
 		if ui.Code == 200 {
 			return true, fmt.Sprintf("userinfo %d %s", ui.Code, vfTrunc(strings.TrimSpace(string(ui.Body)), 80))
@@ -566,7 +623,7 @@ func (r *c11Runner) one(cfg *c11Cfg, h c11Hist) {
 			return false, ""
 		}
 		id := fmt.Sprintf("%s-replay-%d", sub, atomic.AddInt64(&c11Seq, 1))
-		pr := p.Do(vfGET(cfg.Base+"replay", "Cookie", hdr, "X-Vf-Id", id).WithHost(h.HostOut))
+		pr := p.Do(vfGET(cfg.Base+"replay", "Cookie", hdr, "X-Vf-Id", id).WithHost(wire(h.HostOut)))
 		run.Count("replay_requests", 1)
 		hit := len(r.w.Up.FindHit(id)) > 0
 		if hit || pr.Code == 200 {
@@ -597,7 +654,7 @@ func (r *c11Runner) one(cfg *c11Cfg, h c11Hist) {
 		}
 		if len(survivors) > 0 {
 			sig := "c11:presented-session-cookie-survives-sign-out"
-			if d1, d2 := c11RefDomain(cfg.Domains, h.HostLogin), c11RefDomain(cfg.Domains, h.HostOut); len(cfg.Domains) >= 2 && h.HostLogin != h.HostOut && d1 != d2 {
+			if d1, d2 := c11RefDomain(cfg.Domains, wire(h.HostLogin)), c11RefDomain(cfg.Domains, wire(h.HostOut)); len(cfg.Domains) >= 2 && h.HostLogin != h.HostOut && d1 != d2 {
 				// known finding, kept tight: several cookie domains, the cookies were set while addressing a host for which the
 				// domain rule selects d1, sign-out addressed a host for which it selects d2 != d1, and every survivor carries d1
 				all := true
@@ -700,7 +757,7 @@ func TestVerif_C11(t *testing.T) {
 	run := vfNewRun(t, "C11", "exploration")
 	run.SetRule("histories login -> k in 0..3 authenticated requests (with refreshes that grow / shrink the ID token, also on the sign-out request itself) -> sign-out (GET / POST, rd none / relative / foreign) -> " +
 		"replay of every archived cookie alone, of each generation together and of the final jar on <prefix>/userinfo and a protected path; " +
-		"stores cookie and Redis; cookie-domain none / parent / two domains (login and sign-out hosts exact, sub-domain, with port, different hosts under the parent, hosts for which different configured domains are selected); cookie-path / and /app/; " +
+		"stores cookie and Redis; cookie-domain none / parent / two domains (login and sign-out hosts exact, sub-domain, with port, different hosts under the parent, hosts for which different configured domains are selected, and a Host-rewriting front proxy: the browser addresses app.example.test while the proxy sees internal-svc:4180 / an IP literal / localhost, matching none of the configured domains); cookie-path / and /app/; " +
 		"cookie names default, 255, 256 characters and regexp metacharacters; sessions of 1..4+ cookies; Redis DEL failing through the RESP front (error before effect, dropped connection, nil reply, effect then error / drop). " +
 		"cell = (store, session cookies presented at sign-out, refresh in history, domain/path configuration, method, name class[, fault]); non-trivial = every history (each ends in a judged sign-out)")
 	run.Assume("the browser follows RFC 6265 (a deletion only hits a cookie of the same name, domain and path)",
@@ -802,8 +859,8 @@ func TestVerif_C11(t *testing.T) {
 		fmt.Printf("INCONCLUSIVE property=C11 reason=no DEL fault was injected / no stored session survived a failed delete: the error clause was not exercised\n")
 		t.Fail()
 	}
-	if run.Counter("replay_requests") == 0 || run.Counter("refreshes") == 0 {
-		fmt.Printf("INCONCLUSIVE property=C11 reason=no replay / no refresh observed\n")
+	if run.Counter("replay_requests") == 0 || run.Counter("refreshes") == 0 || run.Counter("histories_host_rewritten") == 0 {
+		fmt.Printf("INCONCLUSIVE property=C11 reason=no replay / no refresh / no host-rewritten history observed\n")
 		t.Fail()
 	}
 	run.Finish(int64(run.Env.Pick(850, 8000)), run.Env.Pick(450, 800))
